@@ -328,6 +328,8 @@ fn c02_owned<C: Oracle>(rep: &mut Report, rng: &mut Rng) {
         variants.push(("clear + extend", c));
         for (how, v) in &variants {
             rep.case(|| format!("{} n={} {}", C::NAME, n, how));
+            let ne_ok = !(*v != fresh) && !(fresh != *v) && !(&fresh != *v) && !(*v != &fresh) && !(v != &&fresh[..]) && !(fresh[..] != *v) && !(&fresh[..] != *v) && !(*v != fresh[..]);
+            rep.expect(ne_ok, "C02 != is the negation of == in every pairing", || format!("{} n={} history={}", C::NAME, n, how));
             let ok = *v == fresh && fresh == *v && &fresh == *v && *v == &fresh && v == &&fresh[..] && fresh[..] == *v && &fresh[..] == *v && *v == fresh[..];
             rep.expect(ok, "C02 owned sequences with the same content are equal whatever their history, in every pairing and direction", || format!("{} n={} history={} {} vs {}", C::NAME, n, how, v, fresh));
             rep.expect(rec(v) == rec(&fresh) && rec(v) == rec(&fresh[..]), "C02 equal sequences feed identical data to the hasher whatever their history", || format!("{} n={} history={}", C::NAME, n, how));
@@ -339,7 +341,7 @@ fn c02_owned<C: Oracle>(rep: &mut Report, rng: &mut Rng) {
                 other[n - 1] = (other[n - 1] + 1) % C::len();
                 let o = build::<C>(&other);
                 if o.to_string() != fresh.to_string() {
-                    rep.expect(*v != o && o != *v, "C02 owned sequences differing in the last symbol are unequal", || format!("{} {} vs {}", C::NAME, v, o));
+                    rep.expect(*v != o && o != *v && !(*v == o) && !(o == *v) && v[..] != o[..] && !(v[..] == o[..]) && *v != o[..] && !(*v == &o[..]), "C02 owned sequences differing in the last symbol are unequal", || format!("{} {} vs {}", C::NAME, v, o));
                 }
             }
         }
@@ -633,6 +635,14 @@ fn c06_codec<C: Oracle>(rep: &mut Report, steps: usize, rng: &mut Rng) {
             }
             8 => {
                 snapshots.push((seq.clone(), model.clone()));
+                // the other copying routes of the std traits (an overridden clone_from / clone_into)
+                let (m1, m2) = (1 + rng.below(40), 1 + rng.below(40));
+                let mut target = build::<C>(&rand_rows::<C>(rng, m1));
+                target.clone_from(&seq);
+                snapshots.push((target, model.clone()));
+                let mut target2 = build::<C>(&rand_rows::<C>(rng, m2));
+                seq[..].clone_into(&mut target2);
+                snapshots.push((target2, model.clone()));
                 if n > 1 {
                     let a = rng.below(n);
                     snapshots.push((seq[a..].to_owned(), model[a..].to_vec()));
@@ -1273,6 +1283,12 @@ fn c10(_tier: &str, seed: u64) -> Report {
             rep.case(|| format!("order {:#x} vs {:#x}", a, b));
             let (ka, kb): (Kmer<Dna, 32>, Kmer<Dna, 32>) = (Kmer::from(a as usize), Kmer::from(b as usize));
             let want = (a as usize).cmp(&(b as usize));
+            let (lt, gt) = (want == std::cmp::Ordering::Less, want == std::cmp::Ordering::Greater);
+            rep.expect((ka <= kb) == !gt && (ka > kb) == gt && (ka >= kb) == !lt && (ka != kb) == (a as usize != b as usize)
+                && std::cmp::max(ka, kb).bs == (a as usize).max(b as usize) && std::cmp::min(ka, kb).bs == (a as usize).min(b as usize)
+                && Ord::max(ka, kb).bs == (a as usize).max(b as usize) && Ord::min(ka, kb).bs == (a as usize).min(b as usize)
+                && (if ka <= kb { Kmer::<Dna, 32>::from(0usize).clamp(ka, kb).bs == a as usize } else { true }),
+                "C10 the comparison operators, min, max and clamp of k-mers agree with cmp", || format!("Kmer<Dna,32> {:#x} vs {:#x}", a, b));
             rep.expect(ka.cmp(&kb) == want && ka.partial_cmp(&kb) == Some(want) && (ka < kb) == (want == std::cmp::Ordering::Less) && (ka == kb) == (a == b),
                 "C10 full-width k-mers (K*BITS = 64) order by the packed integer, consistently with equality", || format!("Kmer<Dna,32> {:#x} vs {:#x}: {:?}", a, b, ka.cmp(&kb)));
             let (ua, ub): (Kmer<Dna, 32, u64>, Kmer<Dna, 32, u64>) = (Kmer::from(a as u64), Kmer::from(b as u64));
